@@ -154,14 +154,14 @@ def generate(rng, cfg):
             a["v"] = val
         elif op in ("or", "ror", "ior"):
             a["items"] = _pairs(rng, val)
-            a["other"] = rng.choice(["dict", "same"])
+            a["other"] = rng.choice(["dict", "same"] + (["pairs"] if op == "ior" else []))
             a["adopt"] = rng.random() < 0.5
         elif op == "fromkeys":
             a["keys"] = [p[0] for p in _pairs(rng, 0)]
             a["v"] = val
             a["adopt"] = rng.random() < 0.3
         elif op == "eq":
-            a["other"] = rng.choice(["upper_dict", "same_anycase", "same_anycase", "differs"])
+            a["other"] = rng.choice(["upper_dict", "same_anycase", "same_anycase", "differs", "other_class"])
             a["spell"] = rng.randrange(1 << 30)
         step = [0, op, a]
         trace.append(step)
@@ -464,6 +464,8 @@ def _literal_step(step):
 
 def _other(cls, a):
     pairs = [(key_py(k), v) for k, v in a["items"]]
+    if a["other"] == "pairs":
+        return pairs
     return cls(pairs) if a["other"] == "same" else dict(pairs)
 
 
@@ -542,7 +544,16 @@ def _check_eq(res, stepno, d, model, cls, clsname, a):
     kind = a["other"]
     if kind == "upper_dict" and is_comp:
         kind = "same_anycase"
-    if kind == "upper_dict":
+    if kind == "other_class" and is_comp:
+        kind = "same_anycase"
+    if kind == "other_class":
+        # another caseless mapping class with the same upper-cased content (Parameters vs CaselessDict)
+        from icalendar.caselessdict import CaselessDict
+        from icalendar.parser import Parameters
+        oc = Parameters if cls is CaselessDict else CaselessDict
+        other = oc([(key_py(g.choice(NAMES.get(K, [["s", K]]))), v) for K, v in model.items()])
+        want = True
+    elif kind == "upper_dict":
         other = dict(model)
         want = True
     elif kind == "same_anycase":
